@@ -184,48 +184,43 @@ fn build_by_item_enum_core(
 /// Copies the lint level attributes of the item (`#[allow(..)]`, `#[warn(..)]`, `#[deny(..)]`, `#[forbid(..)]`) to
 /// the generated impls, as the standard derives do: the impls repeat the generic parameters and the field types of
 /// the item, so `#[allow(non_camel_case_types)] struct X<t>(t);` or `#[allow(deprecated)]` must cover them too.
-fn with_lint_attrs(ts: TokenStream, attrs: &[Attribute]) -> TokenStream {
-    let lints: Vec<&Attribute> = attrs
-        .iter()
-        .filter(|a| {
-            ["allow", "warn", "deny", "forbid"]
-                .iter()
-                .any(|name| a.path().is_ident(name))
-        })
-        .collect();
-    if lints.is_empty() {
-        return ts;
+///
+/// The impls also get `#[allow(deprecated)]`: they name the item, its fields and its variants, and deriving a trait
+/// for a `#[deprecated]` item (or one with a deprecated field) is not a use that the author wants to be warned about
+/// (the standard derives are exempt from the lint).
+pub(crate) fn with_lint_attrs(ts: TokenStream, attrs: &[Attribute]) -> TokenStream {
+    use proc_macro2::{Delimiter, Group, TokenTree};
+    let lints = attrs.iter().filter(|a| {
+        ["allow", "warn", "deny", "forbid"]
+            .iter()
+            .any(|name| a.path().is_ident(name))
+    });
+    let extra = quote!(#[allow(deprecated)] #(#lints)*);
+    fn is_marker(g: &Group) -> bool {
+        g.delimiter() == Delimiter::Bracket && g.stream().to_string() == "automatically_derived"
     }
-    fn is_marker(t: &proc_macro2::TokenTree) -> bool {
-        match t {
-            proc_macro2::TokenTree::Group(g) => {
-                g.delimiter() == proc_macro2::Delimiter::Bracket
-                    && g.stream().to_string() == "automatically_derived"
-            }
-            _ => false,
-        }
-    }
-    fn convert(ts: TokenStream, lints: &[&Attribute]) -> TokenStream {
+    fn convert(ts: TokenStream, extra: &TokenStream) -> TokenStream {
         let mut out = TokenStream::new();
+        let mut after_hash = false;
         for t in ts {
+            let is_hash = matches!(&t, TokenTree::Punct(p) if p.as_char() == '#');
             match t {
-                proc_macro2::TokenTree::Group(g) if !is_marker(&proc_macro2::TokenTree::Group(g.clone())) => {
-                    let mut n = proc_macro2::Group::new(g.delimiter(), convert(g.stream(), lints));
+                TokenTree::Group(g) if after_hash && is_marker(&g) => {
+                    out.extend(std::iter::once(TokenTree::Group(g)));
+                    out.extend(extra.clone());
+                }
+                TokenTree::Group(g) => {
+                    let mut n = Group::new(g.delimiter(), convert(g.stream(), extra));
                     n.set_span(g.span());
-                    out.extend(std::iter::once(proc_macro2::TokenTree::Group(n)));
+                    out.extend(std::iter::once(TokenTree::Group(n)));
                 }
-                t => {
-                    let marker = is_marker(&t);
-                    out.extend(std::iter::once(t));
-                    if marker {
-                        out.extend(quote!(#(#lints)*));
-                    }
-                }
+                t => out.extend(std::iter::once(t)),
             }
+            after_hash = is_hash;
         }
         out
     }
-    convert(ts, &lints)
+    convert(ts, &extra)
 }
 
 fn build_binary_op(
